@@ -136,11 +136,18 @@ func main() {
 	if o.Replay != "" {
 		for _, l := range hx.ReadLines(o.Replay) {
 			f := strings.Fields(l)
-			if f[0] == "cmd" {
-				ask(hx.UnH(f[1]), nil)
+			if len(f) == 2 && f[0] == "cmd" {
+				ask(hx.UnH(f[1]), itemsOf(hx.UnH(f[1])))
 			}
 		}
 	} else {
+		// past failures first
+		for _, l := range hx.ReadLines(o.Corpus + "/cmds.ops") {
+			f := strings.Fields(l)
+			if len(f) == 2 && f[0] == "cmd" {
+				ask(hx.UnH(f[1]), itemsOf(hx.UnH(f[1])))
+			}
+		}
 		for m := 1; m <= n; m++ {
 			for _, it := range items {
 				ask(fmt.Sprintf("FETCH %d %s", m, it), []string{it})
@@ -280,6 +287,49 @@ func main() {
 
 // substringDispatchClass: the missing item is one of those the substring-based item dispatch of processFetchForMessage
 // cannot tell apart or does not implement.
+// itemsOf recovers the requested items of a "FETCH n item" / "FETCH n (item item …)" command line (nil for anything else):
+// blanks separate items except inside brackets and parentheses
+func itemsOf(cmd string) []string {
+	f := strings.SplitN(cmd, " ", 3)
+	if len(f) != 3 || strings.ToUpper(f[0]) != "FETCH" {
+		return nil
+	}
+	arg := strings.TrimSpace(f[2])
+	if strings.HasPrefix(arg, "(") && strings.HasSuffix(arg, ")") {
+		arg = arg[1 : len(arg)-1]
+	} else if strings.ContainsAny(arg, " ") && !strings.Contains(arg, "[") {
+		return nil
+	}
+	var out []string
+	depth, cur := 0, ""
+	for _, ch := range arg {
+		switch {
+		case ch == '[' || ch == '(':
+			depth++
+		case ch == ']' || ch == ')':
+			depth--
+		}
+		if ch == ' ' && depth == 0 {
+			if cur != "" {
+				out = append(out, cur)
+			}
+			cur = ""
+			continue
+		}
+		cur += string(ch)
+	}
+	if cur != "" {
+		out = append(out, cur)
+	}
+	for _, it := range out {
+		switch strings.ToUpper(it) {
+		case "ALL", "FAST", "FULL":
+			return nil
+		}
+	}
+	return out
+}
+
 func substringDispatchClass(missing string, requested []string) bool {
 	others := func(pred func(string) bool) bool {
 		for _, r := range requested {
